@@ -519,7 +519,26 @@ where
             if (*kptr).0 != 0 {
                 self.count -= 1;
                 *kptr = Handle(0);
-                Some(std::ptr::read(self.values.as_ptr().add(ind)))
+                let result = std::ptr::read(self.values.as_ptr().add(ind));
+
+                // keep the probe chains intact: move the following entries back into the hole
+                // unless that would place them before their home slot
+                let mask = self.capacity - 1;
+                let handles = self.handles.as_ptr();
+                let values = self.values.as_ptr();
+                let mut hole = ind;
+                let mut j = (ind + 1) & mask;
+                while (*handles.add(j)).0 != 0 {
+                    let home = ((*handles.add(j)).0.wrapping_mul(2654435769) as usize) & mask;
+                    if (hole.wrapping_sub(home) & mask) < (j.wrapping_sub(home) & mask) {
+                        *handles.add(hole) = *handles.add(j);
+                        std::ptr::copy_nonoverlapping(values.add(j), values.add(hole), 1);
+                        *handles.add(j) = Handle(0);
+                        hole = j;
+                    }
+                    j = (j + 1) & mask;
+                }
+                Some(result)
             } else {
                 None
             }
